@@ -41,10 +41,10 @@ PROPS = {
         level_text="Every acknowledgement is checked at the scheduler step it is delivered against the durable object map: published checkpoint covers the index, stored leaf equals the submitted entry with the acknowledged timestamp; re-checked after every crash/reload and at the end; HTTP acknowledgements additionally get their SCT verified with ct-go over an independently built leaf. An operation released after its caller's deadline passed on the fake clock returns the context error (stalls are biased to the 1 s strict-timeout operations).",
         expect_probes=["effect.publish", "crash.inflight"]),
     "C03": dict(SEQ,
-        level_text="Crashes are injected at every scheduler step kind (between any two storage/lock operations, with an arbitrary subset of in-flight mutating operations applied), including during LoadLog's own recovery; after faults stop the log must reload, hold every committed tile, keep every acknowledged entry and sequence a fresh entry; staging discards are checked against the published checkpoint at the instant they take effect.",
+        level_text="Crashes are injected at every scheduler step kind (between any two storage/lock operations, with an arbitrary subset of in-flight mutating operations applied), including during LoadLog's own recovery; after faults stop the log must reload, hold every committed tile, keep every acknowledged entry and sequence a fresh entry; staging discards are checked against the published checkpoint at the instant they take effect. Crash subsets are drawn as independent coins, all-but-one or only-one; faults are biased to the staging read of recovery; a sixteenth of the runs contain one bulk burst (more than 64 parallel tile uploads).",
         expect_probes=["crash.inflight", "crash.loading-inflight", "crash.inflight.applied", "crash.inflight.lost", "reload.ok"]),
     "C04": dict(SEQ,
-        level_text="Write-time monitors on every effective storage operation (immutable objects never rewritten, nothing but staging discarded, canonical keys and metadata) and a full independent audit of the durable object map at the instant each checkpoint upload takes effect: every required tile present, byte-exact against the reference rendering, leaf i has index i and a timestamp <= tree head, issuers present, names tiles consistent with an independent parse.",
+        level_text="Write-time monitors on every effective storage operation (immutable objects never rewritten, nothing but staging discarded, canonical keys and metadata) and a full independent audit of the durable object map at the instant each checkpoint upload takes effect: every required tile present, byte-exact against the reference rendering, leaf i has index i and a timestamp <= tree head, issuers present, names tiles consistent with an independent parse. A sixteenth of the runs contain one bulk burst of 5400-6600 cheap entries (more than 64 tile uploads in flight in one round or recovered bundle); a quarter have yield points before poolMu.",
         expect_probes=["effect.publish"]),
 }
 
@@ -53,7 +53,7 @@ PROPS.update({
         level_text="Two or three real Log instances with the same key on one simulated lock store and storage, started at arbitrary steps (also while another instance is between its CAS and its uploads, so that recovery runs concurrently), interleaved at storage/lock-operation granularity with slow-node faults; oracle: no fork and append-only history over the union of all checkpoints, a CAS loser stops with the fatal error, acknowledges nothing from that round and commits nothing afterwards; at the end of every run eleven start-up states built from the final durable state (lock behind storage, same size/different root, foreign name/key, missing checkpoint, lock ahead without staging, checkpoint from the future, CreateLog over an existing log) must be refused while the unmodified twin loads.",
         expect_probes=["cas.lost", "probe.twin", "probe.lock-behind-storage", "fault.slow"]),
     "C07": dict(SEQ,
-        level_text="Duplicate submissions (same item resubmitted, client retries of failed submissions) in every phase of a round, with cache faults between incarnations (deleted, rolled back to a snapshot, converted to the legacy 128-bit table, rebuilt by the built cmd/recompute-cache binary from a materialised copy of the simulated storage, the log key being derived from a seed file the way cmd/sunlight does); oracle: within a cache epoch all acknowledgements of an entry carry one (index, timestamp); an entry that is pending or acknowledged in the epoch is never admitted again; leaves per entry <= admissions minus evictions; every acknowledgement from any cache source satisfies the C02 storage oracle; after the recompute-cache binary rebuilt the cache, resubmissions of entries it read (prefill entries included) are answered with an occurrence it read.",
+        level_text="Duplicate submissions (same item resubmitted, client retries of failed submissions) in every phase of a round, with cache faults between incarnations (deleted, rolled back to a snapshot, converted to the legacy 128-bit table, rebuilt by the built cmd/recompute-cache binary from a materialised copy of the simulated storage, the log key being derived from a seed file the way cmd/sunlight does); oracle: within a cache epoch all acknowledgements of an entry carry one (index, timestamp); an entry that is pending or acknowledged in the epoch is never admitted again; leaves per entry <= admissions minus evictions; every acknowledgement from any cache source satisfies the C02 storage oracle; after the recompute-cache binary rebuilt the cache, resubmissions of entries it read (prefill entries included) are answered with an occurrence it read. Cache read faults (the table renamed away and back around a resubmission) must fail the submission, never admit it as new; in a quarter of the runs goroutines park before every acquisition of poolMu (yield points inserted into a build-time copy of ctlog.go) so that the scheduler orders submissions against the pool rotation.",
         expect_probes=["fault.cache.delete", "fault.cache.rollback", "fault.cache.legacy", "fault.cache.recompute"]),
     "C08": dict(SEQ,
         level_text="After a simulated prefix, objects are deleted, truncated, bit-flipped, extended, swapped, rolled back or (data tiles, also inside staging bundles) re-encoded well-formed with one leaf changed (biased towards the newest data tile, the right-edge tiles, checkpoint and staging bundles that recovery reads), combined with crashes, restarts and further sequencing; oracle: every checkpoint committed to the lock store afterwards has root MTH(pre-tamper leaves ++ entries sunlight itself staged afterwards), those entries are submitted ones with the right indexes, and every acknowledgement names such an index. Refusing to load or stopping is accepted.",
@@ -104,10 +104,10 @@ WIT = {"engine": "wit", "quick_budget": 45, "thorough_budget": 900, "level_note"
        "stubbed": ["lock store and object store: in-memory, faults (applied / not applied) decided by the scheduler", "HTTP transport: handlers invoked directly; request bodies are readers that park between entry packages", "the logs: ground-truth logs with one fork, generated by the harness"],
        "assumptions": ["lock store linearizable (C05), object store atomic and read-after-write", "sampling: a clean batch is evidence, not proof"]}
 PROPS["C14"] = dict(WIT,
-    level_text="Adversarial add-checkpoint histories over ground-truth logs with a fork (every kind of single defect: unknown origin, foreign key, old-size mismatch, wrong/foreign-fork/truncated proof, malformed and non-canonical numbers, extension lines), with lock/storage faults applied or not applied on every operation, crashes inside requests and restarts; oracle from the lock-store history and the HTTP answers: recorded sizes never decrease, every recorded tree is a prefix of one branch and consistent with the previous one, 200 answers are exactly the two verifying witness cosignatures over the re-encoded checkpoint and only after the commit, no signature after a failed or unknown-outcome CAS, one-defect requests get exactly the protocol's status.",
+    level_text="Adversarial add-checkpoint histories over ground-truth logs with a fork (every kind of single defect: unknown origin, foreign key, old-size mismatch, wrong/foreign-fork/truncated proof, malformed and non-canonical numbers, extension lines), with lock/storage faults applied or not applied on every operation, crashes inside requests and restarts; oracle from the lock-store history and the HTTP answers: recorded sizes never decrease, every recorded tree is a prefix of one branch and consistent with the previous one, 200 answers are exactly the two verifying witness cosignatures over the re-encoded checkpoint and only after the commit, no signature after a failed or unknown-outcome CAS, one-defect requests get exactly the protocol's status; the released cosignature lines themselves must be in a value committed to the lock store.",
     expect_probes=["resp.addckpt.200", "resp.addckpt.409", "resp.addckpt.422", "resp.addckpt.403", "fault.nonyield.err-applied.lreplace", "crash"])
 PROPS["C15"] = dict(WIT,
-    level_text="Interleaved add-checkpoint and add-entries requests (request bodies park between entry packages, tile uploads park at the storage seam, so uploads race each other and checkpoint updates), arbitrary ranges, unaligned starts, truncated bodies, wrong entries/proofs, stale and forged tickets, gzip bodies, faults and restarts; at every effective write of the mirror checkpoint and every 200 answer the mirror storage must serve the complete signed tree (every full tile, right-edge partial or its full extension, entries equal to the log's, root equal), size never above the pending checkpoint, never decreasing; after a final restart an upload from the mirror size must be accepted.",
+    level_text="Interleaved add-checkpoint and add-entries requests (request bodies park between entry packages, tile uploads park at the storage seam, so uploads race each other and checkpoint updates), arbitrary ranges, unaligned starts, truncated bodies, wrong entries/proofs, stale and forged tickets, gzip bodies, faults and restarts; at every effective write of the mirror checkpoint and every 200 answer the mirror storage must serve the complete signed tree (every full tile, right-edge partial or its full extension, entries equal to the log's, root equal), size never above the pending checkpoint, never decreasing; after a final restart an upload from the mirror size must be accepted. Half of the two-log runs mirror both logs; a quarter run a second witness process on the same lock store and storage that also receives uploads.",
     expect_probes=["resp.addentries.200", "resp.addentries.409", "servable.checked", "resume.ok", "concurrent.requests", "fault.body.cut", "script.cut-tile", "script.cut-tile.retry"])
 PROPS["C16"] = dict(WIT,
     level_text="sign-subtree requests over checkpoints that were really cosigned in the simulated histories (witness only, mirror only, both) and over none/foreign/forged/corrupted ones, all range shapes (also from 0 to far beyond the size) and correct/incorrect hashes and proofs (also the checkpoint root offered for a part of the tree without a proof); oracle: signatures are returned only for a valid subtree within the size whose hash is the reference subtree hash, exactly by those own ML-DSA keys whose cosignature on the presented checkpoint verifies, and each returned line verifies with the public subtree verifier. The handler is stateless: the simulation contributes the supply of genuinely cosigned checkpoints; stated as exploration over inputs.",
